@@ -78,6 +78,13 @@ def run(tier):
         K = rnd.getrandbits(48) | (1 << 47)
         body = ["mov rax, 0x%x" % K, "mov [rdi], rax", "mov rcx, [rdi]", "add rax, rcx", "mov [rsi+0x8], rax", "mov rax, [rsi+0x8]", "nop7", "ret"]
         execs.append((body, (2 * K) & (2**64 - 1)))
+    # -r passes six DISTINCT zero-initialised arrays (rdi, rsi, rdx, rcx, r8, r9): the code returns 0x654321 only if that is so
+    six = ["mov rax, [rdi]", "add rax, [rsi]", "add rax, [rdx]", "add rax, [rcx]", "add rax, [r8]", "add rax, [r9]",
+           "mov qword [rdi], 1", "mov qword [rsi], 2", "mov qword [rdx], 3", "mov qword [rcx], 4", "mov qword [r8], 5", "mov qword [r9], 6"]
+    for reg in ("r9", "r8", "rcx", "rdx", "rsi", "rdi"):
+        six += ["shl rax, 4", "add rax, [%s]" % reg]
+    six.append("ret")
+    execs.append((six, 0x654321))
     flagsets = [[f] for f in MODEFLAGS if f] + [list(p) for p in PAIRS] + [[]]
     jobs = []  # dict per invocation
     jid = 0
@@ -118,6 +125,11 @@ def run(tier):
         for src in ("FILE", "stdin"):
             add(body, True, [], "-r", src, {"want": want})
             add(body, True, ["-n"], "-r=3", src, {"want": want})
+    # arguments the usage text excludes (CHUNK_SIZE>1, CHUNK_BOUNDARY>1, -o name without extension): the requested output cannot
+    # be produced, the exit status must be non-zero
+    for prog, valid in progs[:2]:
+        for bad_args in (["-c", "1"], ["-c", "0"], ["-c", "abc"], ["-b", "1"], ["-b", "0"], ["-o", os.path.join(wd, "name.ext")]):
+            add(prog, valid, [], "-usage", rnd.choice(["FILE", "stdin"]), {"bad_args": bad_args})
     # unwritable outputs: the exit status must be non-zero
     for prog, valid in progs[:4]:
         for target in ("/dev/full", os.path.join(wd, "no-such-dir", "x.bin")):
@@ -209,6 +221,8 @@ def run(tier):
             args += ["-p", "-b", str(j["c"])]
         elif ok.startswith("-r"):
             args += [ok]
+        elif ok == "-usage":
+            args += ["-p"] + j["bad_args"]
         if common._hangs[0] >= common.HANG_LIMIT:  # circuit breaker (vlib/common.py): the hangs seen so far are violations already
             return {"rc": "skipped", "stdout": b"", "stderr": b"", "file": None, "argv": args}
         try:
@@ -251,7 +265,7 @@ def run(tier):
             v.violation(case, "reference-crashed", None)
             continue
         lib_ok = R["rc"] == 0
-        should_succeed = lib_ok and j["out"] != "-Pbad"
+        should_succeed = lib_ok and j["out"] not in ("-Pbad", "-usage")
         stats["exit0" if o["rc"] == 0 else "exit_nonzero"] += 1
         if (o["rc"] == 0) != should_succeed:
             v.violation(case, "exit-status:%d-but-%s" % (o["rc"], "should-succeed" if should_succeed else "should-fail"), err[-400:])
